@@ -882,9 +882,14 @@ where
         if valid_bits % Word::BITS != 0 || valid_bits == usize::MAX {
             Err(None)
         } else {
+            // Emit exactly `valid_bits / Word::BITS` words (least significant first), even
+            // if the most significant ones are zero: they are part of the binary payload.
             let truncated_state = self.state ^ (State::one() << valid_bits);
-            self.bulk
-                .extend_from_iter(bit_array_to_chunks_truncated(truncated_state).rev())?;
+            self.bulk.extend_from_iter(
+                (0..valid_bits)
+                    .step_by(Word::BITS)
+                    .map(|shift| (truncated_state >> shift).as_()),
+            )?;
             Ok(self.bulk)
         }
     }
